@@ -164,6 +164,17 @@ def _main(prop, tier='quick', seed=0, replay=None):
             ctx.notes.append('correspondence run on 3 input streams instead of 1')
         recs = evaluate(mod, ctx, cases)
         hx = [r for r in recs if isinstance(r['real'], dict) and 'harness_exc' in r['real']]
+        tree_diff = modelled.tree_changed(os.environ.get('XYZ_REPO', '/repo'))
+        if hx and tree_diff:
+            # The harness could not even observe the library on these cases, and the library's code is not the code the
+            # harness was validated against: that is a correspondence that no longer checks, not an infrastructure
+            # problem.  The cases count as disagreements (a concrete failing input is then searched for as usual).
+            ctx.notes.append('library modules changed since the harness was validated: ' + ', '.join(tree_diff)[:300])
+            for r in hx:
+                r['diff'] = 'the harness could not observe the changed library on this case: ' + r['real']['harness_exc']
+                r['oracle'] = None
+                r['real'] = {'unobservable': r['real']['harness_exc']}
+            hx = []
         if hx:
             print('INFRA: the harness itself failed on a case (not a verdict):', hx[0]['real']['harness_exc'])
             print(hx[0]['real'].get('tb', ''))
